@@ -23,6 +23,7 @@ import DSymVerif.Proofs.DSymGenIso
 import DSymVerif.Proofs.DSymGenGood
 import DSymVerif.Proofs.DSymGenCensus
 import DSymVerif.Proofs.DSymGenOrient
+import DSymVerif.Proofs.DSymGenAgree
 import DSymVerif.Proofs.DSymGenBox
 import DSymVerif.Proofs.Delaney2dChi
 import DSymVerif.Spec.C07
@@ -678,17 +679,63 @@ theorem private_census_is_crate_census (ds : DSetData) (g : Geom) (c : Ctx) (h :
   rw [pointsVs_eq (mkCtx_wf h) hl _ (fun i hi => List.mem_range.mp hi), hdd,
     isWeaklyOriented_private hd.valid hd.connected hd.nonempty]
 
+/-- **`private_orbifold_symbol_agrees`** (open item 2 of phase 1; proved under two decidable
+    monitors): for every D-set of the domain, every admissible vector of positive curvature, if
+    C08's parity monitor holds for the emitted symbol (a weakly oriented symbol has an even
+    2 − χ − #boundaries) and a symbol that is not weakly oriented has at least one cross-cap (both concern only the handle / cross-cap bookkeeping of
+    `delaney2d::orbifold_symbol`; the Spec evaluates them on every positive member of the box),
+    then the generator's private `orbifold_symbol` returns `privString` — sorted cones, "*" iff a
+    mirror exists, sorted corners, "x" iff not weakly oriented —, the C08 model of
+    `delaney2d::orbifold_symbol` returns some `o`, and the private key is on the generator's list
+    **iff** `o` names (up to `SpecC08.sameOrbifold`) an orbifold of that list as read by
+    `SpecC08.parseSymbol`; so `is_good` is the Spec's spherical filter.  Ingredients: the private
+    cone/corner lists are the crate's census (`private_census_is_crate_census`), the private
+    orientation test is the trait's (`private_is_weakly_oriented`), a symbol of positive
+    curvature has no handle and at most one boundary component or cross-cap (C08's Gauss–Bonnet
+    under the monitor, `chi_pos_shape`), `trace_boundary` returns a component iff a mirror exists,
+    the two readings of the generated list agree entry by entry (`decide`), rendering is
+    injective on single-digit keys, and up to three corners every arrangement is cyclically
+    equivalent to the sorted one. -/
+theorem private_orbifold_symbol_agrees (ds : DSetData) (g : Geom) (c : Ctx) (h : mkCtx ds g = .ok c)
+    (hd : InDomain ds) (vs : List Nat) (ha : Adm c vs) (hpos : 0 < scaled c vs) (rep : D2.Rep)
+    (hmon : D2.parityMonitor ⟨emittedSym c vs, rep⟩ = true)
+    (hcap : ∀ o, D2.orbifoldSymbol ⟨emittedSym c vs, rep⟩ = .ok o → o.orientable = false → 1 ≤ o.count) :
+    ∃ o, orbifoldSymbol c vs = .ok (privString c vs) ∧
+      D2.orbifoldSymbol ⟨emittedSym c vs, rep⟩ = .ok o ∧
+      (Tables.goodSphericalOrbifolds.contains (privString c vs) = true ↔
+        SpecC07.onGoodList (D2.orbOf o) = true) ∧
+      isGood c vs (scaled c vs) = .ok (SpecC07.onGoodList (D2.orbOf o)) :=
+  private_key_agrees h hd.valid hd.dim hd.far hd.connected hd.nonempty ha hpos rep hmon hcap
+
+example : ∃ c, mkCtx ex1 .all = .ok c ∧ Adm c [3, 3] ∧ 0 < scaled c [3, 3] ∧
+    D2.parityMonitor ⟨emittedSym c [3, 3], .partialSym⟩ = true := by
+  refine ⟨_, rfl, ⟨by decide +kernel, by decide +kernel⟩, by decide +kernel, by decide +kernel⟩
+
+/-- the generated list, read in the generator's own format (`goodKeys`) and by
+    `SpecC08.parseSymbol`, names the same orbifolds entry by entry; every entry has single-digit
+    numbers ≥ 2, at most three corners, sorted lists, corners only behind a star (re-checked on
+    the generated table on every run) -/
+theorem good_list_two_readings :
+    Tables.goodSphericalOrbifolds.map String.toList = goodKeys.map PKey.chars ∧
+    SpecC07.goodOrbs = goodKeys.map PKey.orb ∧
+    ∀ t, t ∈ goodKeys → t.Valid ∧ t.corners.length ≤ 3 ∧ sortDesc t.cones = t.cones ∧
+      sortDesc t.corners = t.corners :=
+  ⟨goodKeys_chars, goodKeys_orbs, fun _ ht => goodKeys_valid ht⟩
+
 /-! ### open (not theorems): the statements, for the record -/
 
-/-- ◐ for positive curvature the key built by the generator's private `orbifold_symbol` is on the
-    list iff the orbifold named by `delaney2d::orbifold_symbol` (C08 model, as the Spec uses it)
-    is one of the orbifolds the list names.  Decided by the Spec's comparison of the emitted
-    spherical set with the expected one on every explored case. -/
-def private_orbifold_symbol_agrees_statement : Prop :=
-  ∀ (ds : DSetData) (g : Geom) (c : Ctx) (vs : List Nat) (key : String) (b : SpecC08.Orb), InDomain ds →
-    mkCtx ds g = .ok c → Adm c vs → 0 < scaled c vs → orbifoldSymbol c vs = .ok key →
-    SpecC07.orbOf (symOf ds c vs) (symOf ds c vs).v = some b →
-      (Tables.goodSphericalOrbifolds.contains key = true ↔ SpecC07.onGoodList b = true)
+/-- ◐ the two monitors of `private_orbifold_symbol_agrees` hold for every admissible vector of
+    positive curvature on every D-set of the domain: C08's parity monitor, and "not weakly oriented
+    ⇒ at least one cross-cap".  Both say that the handle / cross-cap count which
+    `delaney2d::orbifold_symbol` derives from the Euler characteristic is the topological one
+    (a closed orientable surface has even Euler characteristic; a non-orientable surface has a
+    cross-cap) — surface topology, not proved.  Evaluated by the Spec on every member of the box
+    with K > 0 and v ≤ 7 for every explored D-set (clause `oracle-genus-monitors-hold`). -/
+def genus_monitors_statement : Prop :=
+  ∀ (ds : DSetData) (g : Geom) (c : Ctx) (vs : List Nat) (rep : D2.Rep), InDomain ds →
+    mkCtx ds g = .ok c → Adm c vs → 0 < scaled c vs →
+      D2.parityMonitor ⟨emittedSym c vs, rep⟩ = true ∧
+      ∀ o, D2.orbifoldSymbol ⟨emittedSym c vs, rep⟩ = .ok o → o.orientable = false → 1 ≤ o.count
 
 /-- ◐ the Spec's own curvature of the same assignment (orbits by naive closure) is the same number
     (`curvQ_is_model_curvature` identifies `curvQ` with the crate's curvature model and the chamber
